@@ -1870,7 +1870,7 @@ func (c *Ctx) r0148(pk *packages.Package, rule string) {
 // R01.49: only a directive is printed as a statement that is a string and nothing else.
 func (c *Ctx) r0149(pk *packages.Package) {
 	const rule = "R01.49"
-	c.R.Rule(rule, "a statement at the start of a function body or script that consists of a string literal token and nothing else is a directive (ECMA-262 §11.2.1): `\"use strict\"` changes the meaning of the whole function. `(\"use strict\");` and `\"use \"+\"strict\";` are ordinary expression statements; printed without the parentheses, or with the strings joined, they become directives. (a) jsMinifier.minifyStmt, case *js.ExprStmt, tests the statement's value for a parenthesised string (a StringToken test) and writes an opening parenthesis under it; (b) the string printer of jsMinifier.minifyExpr (case *js.LiteralExpr) looks at whether it prints a whole statement (a test of m.expectExpr) before it writes a string — a string that mergeBinaryExpr assembled is printed by it like a directive")
+	c.R.Rule(rule, "a statement at the start of a function body or script that consists of a string literal token and nothing else is a directive (ECMA-262 §11.2.1): `\"use strict\"` changes the meaning of the whole function. `(\"use strict\");` and `\"use \"+\"strict\";` are ordinary expression statements; printed without the parentheses, or with the strings joined, they become directives. (a) jsMinifier.minifyStmt, case *js.ExprStmt, tests the statement's value for a parenthesised string (a StringToken test) and writes an opening parenthesis under it; (b) the string printer of jsMinifier.minifyExpr (case *js.LiteralExpr) looks at whether it prints a whole statement (a test of m.expectExpr) before it writes a string — a string that mergeBinaryExpr assembled is printed by it like a directive; (c) where optimizeStmtList removes empty statements it looks at the statement behind them — a string statement that becomes the first of the list would turn into a directive (`;\"use strict\";`)")
 	info := pk.TypesInfo
 	// (a)
 	if fd := c.fn(rule, pk, "jsMinifier.minifyStmt"); fd != nil {
@@ -1905,6 +1905,41 @@ func (c *Ctx) r0149(pk *packages.Package) {
 		}
 		c.R.Check(good, rule, "js.jsMinifier.minifyStmt/case *js.ExprStmt/(a) a parenthesised string keeps its parentheses", c.pos(fd), "an opening parenthesis is written under a StringToken test of the statement's value",
 			"an expression statement that is a parenthesised string literal is printed without the parentheses: `function f(){(\"use strict\");return this}` becomes `function f(){\"use strict\";return this}`, a strict function")
+	}
+	// (c) empty statements in front of a string statement
+	if fd := c.fn(rule, pk, "optimizeStmtList"); fd != nil {
+		n := 0
+		ast.Inspect(fd.Body, func(z ast.Node) bool {
+			ifs, ok := z.(*ast.IfStmt)
+			if !ok || ifs.Init == nil {
+				return true
+			}
+			as, ok := ifs.Init.(*ast.AssignStmt)
+			if !ok || len(as.Rhs) != 1 {
+				return true
+			}
+			ta, ok := ast.Unparen(as.Rhs[0]).(*ast.TypeAssertExpr)
+			if !ok || ta.Type == nil || !strings.HasSuffix(nospace(str(ta.Type)), "js.EmptyStmt") {
+				return true
+			}
+			// the branch that removes the empty statements: it reslices the list
+			removes := false
+			for _, st := range ifs.Body.List {
+				if a2, ok := st.(*ast.AssignStmt); ok && len(a2.Rhs) == 1 {
+					if ce, ok := ast.Unparen(a2.Rhs[0]).(*ast.CallExpr); ok && str(ce.Fun) == "append" {
+						removes = true
+					}
+				}
+			}
+			if !removes {
+				return true
+			}
+			n++
+			c.R.Check(strings.Contains(nospace(c.src(ifs.Body)), "js.StringToken"), rule, fmt.Sprintf("js.optimizeStmtList/(c) empty statements removed#%d with a look at a string statement behind them", n), c.pos(ifs), "the branch tests the statement that follows for a string literal",
+				"empty statements are removed without a look at what follows: `;\"use strict\";function f(){return this}` becomes `\"use strict\";function f(){return this}`, the string is the first statement now and a directive")
+			return false
+		})
+		c.R.Floor(rule, "removals of empty statements", n, 1)
 	}
 	// (b)
 	if fd := c.fn(rule, pk, "jsMinifier.minifyExpr"); fd != nil {
